@@ -354,6 +354,52 @@ def h_chord_annotations(c):
   c.cover('a repeated chord adds nothing', len(want) < F)
 
 
+def h_chord_wiring(c):
+  """Every call of infer_chords_for_sequence hands the Viterbi kernel the
+  model of ITS OWN parameters: the distribution / transition builders are
+  replaced by stubs that encode their arguments in the value they return, the
+  kernel stub records what it receives, and two calls with different
+  parameters are made in one process."""
+  import math  # pylint: disable=g-import-not-at-top
+  ci = c.mod('chord_inference')
+  pb = c.pb
+  np = c.np
+  seen = []
+
+  def dist(chord_pitch_out_of_key_prob):
+    return np.array([[1.0 + chord_pitch_out_of_key_prob]])
+
+  def trans(key_chord_distribution, key_change_prob, chord_change_prob):
+    d0 = key_chord_distribution[0][0]
+    return np.array([[d0 + 10 * key_change_prob + 100 * chord_change_prob]])
+
+  def viterbi(chord_frame_loglik, key_chord_loglik, key_chord_transition_loglik):
+    seen.append((key_chord_loglik[0][0], key_chord_transition_loglik[0][0]))
+    return [(0, 'N.C.')] * len(chord_frame_loglik)
+
+  calls = c.params['calls']
+  with _Stubs(ci, sequence_note_pitch_vectors=lambda s_, f_: np.zeros([1, 12]),
+              _chord_frame_log_likelihood=lambda v_, k_: np.zeros([len(v_), 2]),
+              _key_chord_distribution=dist,
+              _key_chord_transition_distribution=trans,
+              _key_chord_viterbi=viterbi):
+    for (po, kc, cc) in calls:
+      seq = pb.NoteSequence()
+      seq.quantization_info.steps_per_quarter = 4
+      seq.tempos.add().qpm = 120
+      ts = seq.time_signatures.add()
+      ts.numerator, ts.denominator = 4, 4
+      seq.total_time = c.real('tt%d' % len(seen), 0.25, 1)
+      ci.infer_chords_for_sequence(seq, chord_pitch_out_of_key_prob=po,
+                                   key_change_prob=kc, chord_change_prob=cc)
+  c.check(len(seen) == len(calls), 'the kernel runs once per call')
+  for (po, kc, cc), (kl, tl) in zip(calls, seen):
+    c.check(abs(kl - math.log(1.0 + po)) < 1e-9 and
+            abs(tl - math.log(1.0 + po + 10 * kc + 100 * cc)) < 1e-9,
+            'the kernel receives the key-chord and transition models built '
+            'from the parameters of this very call')
+
+
 def h_melody_notes(c):
   """The note-writing stage of infer_melody_for_sequence on an ARBITRARY valid
   event path: sequence_note_frames runs for real (set / sort / bisect over
@@ -456,6 +502,7 @@ def h_melody_notes(c):
 HARNESSES = {'h_melody_viterbi': h_melody_viterbi,
              'h_chord_annotations': h_chord_annotations,
              'h_melody_notes': h_melody_notes,
+             'h_chord_wiring': h_chord_wiring,
              'h_melody_viterbi_wide': h_melody_viterbi_wide,
              'h_chord_viterbi': h_chord_viterbi}
 
@@ -486,6 +533,8 @@ def jobs(tier):
   # absolutely quantized sequence: beats (possibly duplicated) carry steps
   add('h_chord_annotations', mode='beats', K=3, B=3, sps=4, add_keys=False,
       keys=[0], chords=['N.C.', [0, '']], budget=900)
+  add('h_chord_wiring', calls=[[0.5, 0.001, 0.5], [0.01, 0.001, 0.5],
+                               [0.01, 0.002, 0.5], [0.01, 0.002, 0.25]])
   add('h_melody_notes', N=1, K=3)
   add('h_melody_notes', N=1, K=3, pitches=[0, 127])  # the ends of the range
   add('h_melody_notes', N=2, K=3, budget=900)
